@@ -16,7 +16,7 @@ Definition flatten_spec (axis : Z) (t : ty) (vs : list value) : res (list value)
   if ax =? 0 then Err EValue
   else if ax =? 1 then
     (if is_plain_list t then do ls <- mapM elems_of vs; Ok (concat ls) else Err EValue)
-  else spec_ax flat_f true is_plain_list t (if axis <? 0 then axis - 1 else ax - 1) vs.
+  else spec_ax flat_f true is_plain_list true t (if axis <? 0 then axis - 1 else ax - 1) vs.
 
 (* ---- model ---- *)
 Definition ranges_content (c : content) (rs : list (Z * Z)) : res content :=
